@@ -373,14 +373,14 @@ func SplitConj(t Term) []Term {
 		case ' ':
 			if depth == 0 {
 				if i > start {
-					out = append(out, Term{body[start:i], SBool})
+					out = append(out, SplitConj(Term{body[start:i], SBool})...)
 				}
 				start = i + 1
 			}
 		}
 	}
 	if start < len(body) {
-		out = append(out, Term{body[start:], SBool})
+		out = append(out, SplitConj(Term{body[start:], SBool})...)
 	}
 	return out
 }
